@@ -17,7 +17,7 @@ import setdef_layer         # SET / DEFAULT layer (lib/setdef_layer.py, notes/de
 import primb_layer          # restricted character strings (lib/primb_layer.py, notes/design/PrimB.md)
 import prima_layer          # ENUMERATED / BIT STRING layer (lib/prima_layer.py, notes/design/PrimA.md)
 import c01_dflt             # DEFAULT components x extension additions (lib/c01_dflt.py, coq/Rt/DefaultRt.v)
-import c01_width            # INTEGER (lb..ub), both bounds on the OER/PER width boundaries (lib/c01_width.py, coq/Rt/WidthRt.v)
+import c01_width            # INTEGER (lb..ub), both bounds on the OER/PER width boundaries (lib/c01_width.py; model: coq/Rt/Oer.v oer_int_ct)
 
 SYNS = ["der", "cper", "coer", "xer", "cxer"]
 TIMES = {}
